@@ -10,7 +10,7 @@ LEVEL = {
     "C11": "per-shape + **unbounded** allocator + assumed solver", "C12": "per-shape (token data flow) + narrow re-layout clause",
     "C13": "enumerated program shapes, all traces (placement clause only)", "C14": "per-shape, whole method",
     "C16": "**unbounded** scheduler + per-shape", "C17": "**unbounded** arithmetic", "C18": "per-shape, bit-vector, golden model",
-    "C19": "per-shape", "C06": "per-shape, symbolic arithmetic (substitution equations)",
+    "C19": "per-shape", "C15": "**unbounded** trip count, per stage count (sequential clauses)", "C06": "per-shape, symbolic arithmetic (substitution equations)",
 }
 rows = ["| id | contracts (files) | obligations discharged | refuted = known findings | paths | wall | level |", "|---|---|---|---|---|---|---|"]
 for pid in sorted(PROPERTIES):
